@@ -301,9 +301,12 @@ class RecipeReplay:
             return
         k = len(ev["prog"]) + 1
         for n, spec_v in zip(ev["decl"], ev["results"]):
+            if self.kind_of(n) == "P":
+                self.ran("C07")
             d = self.P.vessel_diff(results[n], model.vessel(spec_v), k)
             if d:
                 self.report("C08", "result_differs_from_eager", dict(key, object=self.kind_of(n)), f"bake()[{n!r}]: {d}", ev)
+                self.also(ev, recipe, k, n, None, key, "result_differs_from_direct", f"bake()[{n!r}]: {d}")
                 self.counts["queries_skipped_behind_divergence"] = self.counts.get("queries_skipped_behind_divergence", 0) + 1
                 return
         if not ev.get("snaps"):
@@ -328,6 +331,7 @@ class RecipeReplay:
                     if d:
                         self.report("C08", "step_state_differs", dict(key, step=st["call"], which=which, object=self.kind_of(name)),
                                     f"step {i + 1} ({st['call']}): {name} {which}: {d}", ev)
+                        self.also(ev, recipe, k, name, st, key, "step_differs_from_direct", f"step {i + 1} ({st['call']}): {name} {which}: {d}")
                         return
             # C17: what a remove step records as discarded
             if st["call"] == "remove":
@@ -426,6 +430,35 @@ class RecipeReplay:
     def rounds_to_zero(self, x):
         """an addition below half a unit of the displayed precision of the plate fill text is omitted from it"""
         return float(x * self.inst.base_scale("L")) < 0.5e-3 * 1e-6 * 1000
+
+    def first_divergent_step(self, ev, recipe, k):
+        """the first step whose recorded before/after objects differ from the ledger of the specification: (step, object name)"""
+        if not ev.get("snaps"):
+            return None
+        snaps = [model.state(s_) for s_ in ev["snaps"]]
+        for i, (st, step) in enumerate(zip(ev["prog"], recipe.steps)):
+            to_name = st["dn"] if st["call"] == "transfer" else st["n"]
+            frm_name = st["sn"] if st["call"] == "transfer" else st.get("src") if st["call"] == "create_solution_from" else None
+            for name, lst in [(to_name, step.to)] + ([(frm_name, step.frm)] if frm_name else []):
+                if len(lst) < 2 or lst[0] is None or lst[1] is None or isinstance(lst[1], self.pp.PlateSlicer):
+                    return st, name
+                if self.P.vessel_diff(lst[1], snaps[i + 1][name], k):
+                    return st, name
+        return None
+
+    def also(self, ev, recipe, k, name, st, key, clause, detail):
+        """a recipe step whose outcome differs from the direct operation also breaks the property that specifies that operation
+        'directly or as a recipe step': C07 when it is an operation on a plate (well by well, on the addressed wells), C17 when
+        it is a remove step.  The step blamed is the FIRST one that differs; later ones only inherit its state."""
+        if st is None:
+            fd = self.first_divergent_step(ev, recipe, k)
+            st, name = fd if fd else (None, name)
+        if self.kind_of(name) == "P":
+            self.ran("C07")
+            self.report("C07", clause, dict(key, object="P", step=st["call"] if st else "-"), "as a recipe step: " + detail, ev)
+        if st is not None and st["call"] == "remove":
+            self.ran("C17")
+            self.report("C17", clause, dict(key, object=self.kind_of(name)), "remove as a recipe step: " + detail, ev)
 
     def kind_of(self, name):
         return "C" if self.shape[name] == (0, 0) else "P"
